@@ -102,10 +102,15 @@ def classes():
         script: jax.Array
         idx: jax.Array
         nominal: float = struct.field(pytree_node=False, default=0.0)
+        LEN = 16
 
         @classmethod
         def create(cls, script, nominal):
-            return cls(script=jnp.asarray(list(script) + [nominal], jnp.float32), idx=jnp.int32(0), nominal=float(nominal))
+            # fixed length (same shapes for every spec => one XLA compilation per process); padded with the nominal value
+            sc = list(script)
+            assert len(sc) <= cls.LEN, "script too long"
+            sc = sc + [nominal] * (cls.LEN - len(sc))
+            return cls(script=onp.asarray(sc, onp.float32), idx=onp.int32(0), nominal=float(nominal))
 
         def reset(self, rng):
             return self.replace(idx=jnp.int32(0))
@@ -263,6 +268,14 @@ def node_ids(spec):
 
 def make_dist(d, kind="scripted"):
     C = classes()
+    if "dist" in d:  # decimal family: a real (static) distribution, times in seconds
+        import distrax
+
+        from rex.base import StaticDist
+
+        kind_, mu, sigma = d["dist"]
+        assert kind_ == "normal"
+        return StaticDist.create(distrax.Normal(loc=mu, scale=sigma))
     sc = [x * U for x in d.get("script", [])]
     return C["ScriptedDist"].create(sc, d["nominal"] * U)
 
@@ -278,7 +291,7 @@ def build_nodes(spec, xp="np", trace=None, clock="SIM", vtime=None):
         comp = nd["comp"]
         kw = dict(
             rate=nd["rate"],
-            delay=comp.get("expected", comp["nominal"]) * U,
+            delay=(comp.get("expected", comp["nominal"]) * U) if "dist" not in comp else comp["dist"][1],
             delay_dist=make_dist(comp),
             advance=bool(nd.get("advance", False)),
             scheduling=const.Scheduling.PHASE if nd.get("sched", "FREQ") == "PHASE" else const.Scheduling.FREQUENCY,
@@ -292,7 +305,7 @@ def build_nodes(spec, xp="np", trace=None, clock="SIM", vtime=None):
         nodes[e["n"]].connect(
             nodes[e["o"]],
             blocking=bool(e.get("blocking", False)),
-            delay=comm.get("expected", comm["nominal"]) * U,
+            delay=(comm.get("expected", comm["nominal"]) * U) if "dist" not in comm else comm["dist"][1],
             delay_dist=make_dist(comm),
             window=int(e.get("window", 1)),
             skip=bool(e.get("skip", False)),
